@@ -22,6 +22,7 @@ from typing import Any
 
 from verif import core, fleet
 from verif import storage_k as K
+from verif.props import c01_grpc_gen as GEN
 from verif.translators import tgrpc
 
 PROPS_MODULE = "OptunaVerif.Props.C01Grpc"
@@ -202,7 +203,10 @@ def stream_conv(chk: core.Check, n: int) -> None:
         {"id": -1, "number": -1, "state": 3, "values": [], "params": {}, "user": {}, "system": {}, "inter": {}, "start": None, "complete": None},
         {"id": 0, "number": 0, "state": 1, "values": None, "params": {}, "user": {}, "system": {}, "inter": {}, "start": None, "complete": None},
     ]
-    resp = core.driver_batch("proto", [{"op": "trial", "frozen": frozen_to_driver(f)} for f in cases])
+    reqs = [{"op": "trial", "frozen": frozen_to_driver(f)} for f in cases]
+    resp = core.driver_batch(GEN.DRIVER, reqs)
+    for q, m in zip(reqs, resp):
+        GEN.take(m, q)  # T-grpc2: generated _to_proto_trial / _from_proto_trial side by side with the hand model
     hash_order = 0
     for f, m in zip(cases, resp):
         desc = frozen_to_driver(f)
@@ -252,7 +256,10 @@ def stream_enums(chk: core.Check, handles: dict[str, fleet.Handle]) -> None:
     from optuna.study import StudyDirection
     from optuna.trial import TrialState
 
-    resp = core.driver_batch("proto", [{"op": "state", "code": n} for n in range(8)])
+    reqs = [{"op": "state", "code": n} for n in range(8)]
+    resp = core.driver_batch(GEN.DRIVER, reqs)
+    for q, m in zip(reqs, resp):
+        GEN.take(m, q)  # T-grpc2: generated state converters side by side
     for n, m in enumerate(resp):
         try:
             to = int(S._to_proto_trial_state(TrialState(n))) if n < 5 else None
@@ -268,7 +275,7 @@ def stream_enums(chk: core.Check, handles: dict[str, fleet.Handle]) -> None:
         if n < 5 and (to is None or S._from_proto_trial_state(to) != TrialState(n)):
             chk.violation(_sig("roundtrip", "_to_proto_trial_state"), {"state": n}, "TrialState %d does not survive the wire" % n)
     h = handles["grpc(mem)"]
-    resp = core.driver_batch("proto", [{"op": "dir", "d": d} for d in (0, 1, 2)])
+    resp = core.driver_batch(GEN.DRIVER, [{"op": "dir", "d": d} for d in (0, 1, 2)])
     for d, m in zip((0, 1, 2), resp):
         sid = h.storage.create_new_study([StudyDirection(d), StudyDirection(d)], "dir%d_%d" % (d, chk.seed))
         back = [int(x) for x in h.storage.get_study_directions(sid)]
@@ -401,7 +408,7 @@ def stream_errors(chk: core.Check, handles: dict[str, fleet.Handle]) -> None:
                 asks.append({"op": "transport", "rpc": RPC_OF[method], "err": a["e"]})
             else:
                 asks.append({"op": "state", "code": 0})  # placeholder, keeps the lists aligned
-        resp = core.driver_batch("proto", asks)
+        resp = core.driver_batch(GEN.DRIVER, asks)
         for (method, what, a, b), ask, m in zip(rows, asks, resp):
             case = {"stream": "errors", "cfg": cfg, "method": method, "provocation": what}
             chk.case(case, nontrivial=a["e"] is not None)
@@ -499,6 +506,7 @@ def run_proxy_history(cfg: str, h: fleet.Handle, r: random.Random, drv: core.Dri
         resp = drv.ask(req)
         if "out" not in resp:
             raise core.DriverBroken("driver proto: %s on %s" % (resp, req))
+        GEN.take(resp, req)  # T-grpc2: generated client + servicer + converters side by side with Proto.proxyStep
         g.feedback(op, resp["out"])
         stats["ops"] += 1
         mo = resp["out"]
@@ -517,7 +525,7 @@ def run_proxy_history(cfg: str, h: fleet.Handle, r: random.Random, drv: core.Dri
 
 
 def stream_proxy(chk: core.Check, handles: dict[str, fleet.Handle], n_hist: int, n_ops: tuple[int, int]) -> None:
-    drv = core.Driver("proto")
+    drv = core.Driver(GEN.DRIVER)
     try:
         for cfg, h in handles.items():
             for i in range(n_hist):
@@ -550,11 +558,13 @@ def correspond(chk: core.Check, tier: str) -> None:
         stream_enums(chk, handles)
         stream_errors(chk, handles)
         stream_proxy(chk, handles if not quick else {c: handles[c] for c in cfgs[:2]}, 8 if quick else 60, (10, 40) if quick else (10, 120))
+        GEN.differential(chk, 60 if quick else 600)  # T-grpc2: synthetic histories / converter / ladder probes, generated vs hand
     except core.DriverBroken as e:
         chk.broke("correspondence", {"driver proto": str(e)[:800]})
     finally:
         for h in handles.values():
             h.close()
+    GEN.report(chk)  # generated-vs-hand disagreements, after the property oracles
     chk.assumptions += [
         "gRPC wire model: attribute payloads, distribution json and doubles are opaque tokens handed through unchanged; datetimes "
         "are present/absent in the model (their text round trip is checked by the model-free oracle for years 1000-9999, naive)",
